@@ -627,9 +627,9 @@ fn build_debug_expr(
             quote! {
                 {
                     fn __derive_ex_debug_ref<'__a, __T: ?::core::marker::Sized + ::core::fmt::Debug>(
-                        value: &'__a &__T,
+                        __value: &'__a &__T,
                     ) -> &'__a dyn ::core::fmt::Debug {
-                        value
+                        __value
                     }
                     #expr
                 }
